@@ -397,6 +397,12 @@ def run_fast_sis(spec, props=("C02",)):
     cls = "weighted" if (tw or rw) else "plain"
     wE = lambda u, v: (G[u][v][tw] if tw else 1.0)
     wN = lambda u: (G.nodes[u][rw] if rw else 1.0)
+    at = spec.get("argtype")
+    cast = {None: (lambda x: x), "int": (lambda x: x if x in (INF, -INF) else int(x)), "np": np.float64,
+            "npint": (lambda x: x if x in (INF, -INF) else np.int64(x))}[at]
+    tau_a, gamma_a, tmin_a, tmax_a = cast(tau), cast(gamma), cast(tmin), cast(tmax)
+    if at:
+        cls = cls + "+argtype:" + at
 
     def pol(orc, rate, frame):
         kind, who, now = _who_sis(frame)
@@ -410,7 +416,7 @@ def run_fast_sis(spec, props=("C02",)):
         return val, None
 
     def call(orc, full_):
-        return EoN.fast_SIS(G, tau, gamma, initial_infecteds=list(I0), tmin=tmin, tmax=tmax,
+        return EoN.fast_SIS(G, tau_a, gamma_a, initial_infecteds=list(I0), tmin=tmin_a, tmax=tmax_a,
                             transmission_weight=tw, recovery_weight=rw, return_full_data=full_)
 
     before = mon.snap(G)
@@ -534,4 +540,13 @@ def specs_fast_sis(tier):
         if n == 3:
             out.append(dict(fn="fast_SIS", n=n, edges=list(es) + [(1, 1)], I0=[1], tau=0.3, gamma=0.7, tw=None, rw=None,
                             tmax=6.0, menu=menu, budget=8, full=True))
+    for (n, es) in (gr.NAMED["K3"], gr.NAMED["P3"]):
+        for (tw, rw) in ((None, None), ("w", "rw")):
+            for at, tau, gamma, tmin, tmax in (("int", 1, 2, 0, 3), ("int", 2, 1, -1, 2), ("int", 0, 1, 0, 2), ("int", 1, 0, 0, 2),
+                                               ("npint", 1, 2, 0, 3), ("npint", 1, 0, 1, 3),
+                                               ("np", 0.3, 0.7, 0, 3.5), ("np", 1.1, 0.0, 1.5, 3.5), ("np", 0.0, 0.7, 0, 2)):
+                for I0 in ([0], [1]):
+                    for full in (False, True):
+                        out.append(dict(fn="fast_SIS", n=n, edges=es, I0=I0, tau=tau, gamma=gamma, tw=tw, rw=rw, menu=menu[:2], budget=7, full=full,
+                                        tmin=tmin, tmax=tmax, argtype=at))
     return out
